@@ -137,6 +137,46 @@ PROPS = {
                    '(compiler-level), eval == compile+run.',
         not_decided=['behavioural equivalence with the inlined literal', 'eval == compile;run'],
     ),
+    'C09': dict(
+        title='Arithmetic, comparison and bitwise words follow exact integer / IEEE semantics',
+        verus_units=['arith', 'cell'],
+        kani_groups=[],
+        design_ref='DESIGN.md section 5 / C09',
+        technique='Verus contracts on every word of src/arith.rs over mathematical integers (spec) vs i128 (code); real operators are uninterpreted functions of the operands in source order',
+        level_text='Deductive proof for all operands and stacks: + - * wrap in two\'s complement and are exact when representable; / truncates, rem has the sign of the '
+                   'dividend, a zero divisor (int or real /, int rem) is DivisionByZero, MIN/-1 wraps, neg/abs of MIN is IntegerOverflow; comparisons, min/max, '
+                   'band/bor/bxor/bnot, bsl/bsr for counts 0..127, zero?/positive?/negative?, and/or/xor/not return the stated function of the tag-stripped operands; '
+                   'non-numeric or mixed operands give a TypeErrorMsg whose value is one of the two operands; exactly the operands are consumed, results carry no tags; no panics.',
+        level_note='IEEE-754 arithmetic itself is NOT verified (R7: f64 operators are replaced by uninterpreted helpers; which operator is applied to which operands in which order IS checked). '
+                   'Assumed std contracts: i128::{checked_neg, checked_abs, wrapping_div, wrapping_rem, count_ones}; vstd specs of wrapping_add/sub/mul/shl/shr, Ord::min/max. '
+                   'The six comparison words and `random` are closures/external inside `load` and are not under contract (compare_cells, which they wrap, is).',
+        not_decided=['IEEE semantics of the real operations', 'popcnt value (only its range)', 'the comparison closures in load() beyond compare_cells'],
+    ),
+    'C13': dict(
+        title='Tags never change what a value does',
+        verus_units=['cell', 'arith'],
+        kani_groups=[],
+        design_ref='DESIGN.md section 5 / C13',
+        technique='Verus: every typed accessor of src/cell.rs is specified as a function of strip(cell) (the value without its tag wrapper); every word under contract is specified over strip(arg) only',
+        level_text='Proved for the functions under contract: value() == strip; to_bool/cond_true/to_xint/to_real/to_isize/to_usize/as_map/to_map/vec/to_vec/to_xstr/bitstr/to_bitstr/to_fn/to_any '
+                   'succeed or fail according to strip(c) only and return the payload of strip(c); with_tags attaches the map to strip(c) without nesting; tags() reads the wrapper only. '
+                   'All arithmetic/logic words compute from strip(operands) and their results are never WithTag cells.',
+        level_note='Words not under contract (collection words, printing, bit-string words) are NOT covered; D18 (get/insert/remove match the raw cell) is outside the functions under contract here.',
+        not_decided=['words outside src/arith.rs and the accessors of src/cell.rs'],
+    ),
+    'C08': dict(
+        title='No source text, input or API call sequence can crash the interpreter',
+        verus_units=['bitstr', 'state', 'compile', 'cell', 'arith'],
+        kani_groups=['state_idx.rs', 'codec.rs'],
+        design_ref='DESIGN.md section 5 / C08',
+        technique='panic freedom of exactly the functions under contract: Verus checks every arithmetic operation for overflow, every index, unwrap, division, unreachable!/panic! site; Kani runs with overflow/bounds checks',
+        level_text='Every function that is verified in any unit carries the implicit safety obligations (no overflow over mathematical integers, indices in bounds, unwrap on Some/Ok only, '
+                   'no division by zero, panic!/unreachable! unreachable) under its stated precondition; this property\'s obligation set is the union over all units. '
+                   'Nothing is claimed for functions not under contract (listed in DESIGN.md).',
+        level_note='Preconditions that encode modest sizes (code length < 2^30, bit lengths that do not overflow usize) are assumptions of the property itself. '
+                   'Functions outside the contract set (lexer, formatting, file I/O, most native words) are not covered.',
+        not_decided=['every function not under contract'],
+    ),
 }
 
 # properties not claimed: reason goes to MANIFEST.not_applicable
@@ -145,9 +185,9 @@ NOT_APPLICABLE = {
     'C16': 'the lexer is str/char/parse code outside the Verus dialect and too heavy for Kani (Tok carries a Cell); printing goes through fmt; the bit-literal builder is covered under C04',
     'C18': 'the round-trip law lives entirely in the external base32/base64/z85 crates; assuming it would make the wrappers verify vacuously; the xeh-owned byte export is a C04 obligation',
  'C05': 'unit not built yet in this round', 'C06': 'unit not built yet in this round',
-    'C07': 'unit not built yet in this round', 'C08': 'unit not built yet in this round', 'C09': 'unit not built yet in this round',
+    'C07': 'unit not built yet in this round',
  'C12': 'unit not built yet in this round',
-    'C13': 'unit not built yet in this round',
+
 
 }
 
